@@ -36,10 +36,10 @@ type notifSub struct {
 	positioned bool
 	headAtOpen int64
 	mu         sync.Mutex
-	got     []*proto.NotificationBatch
-	ended   chan error
-	cancel  context.CancelFunc
-	resumes int
+	got        []*proto.NotificationBatch
+	ended      chan error
+	cancel     context.CancelFunc
+	resumes    int
 }
 
 func (s *notifSub) OnNext(nb *proto.NotificationBatch) error {
